@@ -68,6 +68,7 @@ inductive CallRes where
   | ctxErr
   | err
   | diverge
+  | panic      -- a Go panic inside a handler: nothing in `Invoke` or `executeBlock` recovers it
 deriving DecidableEq, Repr
 
 def CallRes.failed : CallRes → Bool
@@ -75,11 +76,13 @@ def CallRes.failed : CallRes → Bool
   | .ctxErr => false
   | .err => true
   | .diverge => true
+  | .panic => true
 
 /-- Contract programs: interaction trees over the primitive effects. -/
 inductive Prog where
   | ret (r : Bytes)                                              -- return r, nil
   | fail                                                         -- return _, err
+  | panic                                                        -- the handler panics (nil dereference, index out of range, …)
   | get (k : Bytes) (next : Bytes → Prog)                        -- GetCacheDB().Get ([] = absent)
   | put (k v : Bytes) (next : Prog)                              -- GetCacheDB().Put
   | del (k : Bytes) (next : Prog)                                -- GetCacheDB().Delete
@@ -120,6 +123,7 @@ structure Svc where
   log : List String
   effLog : List Eff := []         -- ghost: every primitive effect in program order
   swallowed : Nat := 0            -- ghost: nested invocations that did not return `(result, nil)` to a handler
+  panicked : Bool := false        -- a handler panicked: every frame is being unwound
 
 def stPrefix : UInt8 := 0x05   -- common.ST_STORAGE
 
@@ -216,6 +220,7 @@ variable (leafHash : Bytes → Hash)   -- merkle.HashLeaf
 def runProg (inv : Inv) : Prog → Svc → Option Bytes × Svc
   | .ret r, s => (some r, s)
   | .fail, s => (none, s)
+  | .panic, s => (none, { s with panicked := true })
   | .get k f, s => runProg inv (f (s.read k)) s
   | .put k v n, s => runProg inv n { s with cache := s.cache.insert (stPrefix :: k) v,
                                               effLog := s.effLog ++ [.write (stPrefix :: k) v] }
@@ -227,7 +232,8 @@ def runProg (inv : Inv) : Prog → Svc → Option Bytes × Svc
                                                effLog := s.effLog ++ [.cross (leafHash d)] }
   | .call a m args f, s =>
     let (r, s') := inv { s with input := encodeParam a m args }
-    runProg inv (f r) (match r with | .ok _ => s' | _ => { s' with swallowed := s'.swallowed + 1 })
+    if s'.panicked then (none, s')       -- the panic unwinds through the caller: its continuation never runs
+    else runProg inv (f r) (match r with | .ok _ => s' | _ => { s' with swallowed := s'.swallowed + 1 })
   | .witness a f, s => runProg inv (f (checkWitness s.signers s.contexts a)) s
   | .getInput f, s => runProg inv (f s.input) s
   | .context f, s => runProg inv (f (currentContext s.contexts) (callingContext s.contexts)) s
@@ -266,7 +272,7 @@ def invokeBody (inv : Inv) (s : Svc) (sm : List (Bytes × Handler)) (addr : Addr
   if s.contexts.length > maxContextLen then (.ctxErr, ctxErrState s sm args)
   else
     match runProg leafHash inv (h args) (enter s sm addr args) with
-    | (none, s3) => (.err, s3)
+    | (none, s3) => (if s3.panicked then .panic else .err, s3)
     | (some r, s3) => (.ok r, leave s s3)
 
 /-- `NativeService.Invoke`, one level; `inv` is the same function one level deeper. -/
@@ -304,6 +310,7 @@ structure TxResult where
   log : List String
   effs : List Eff := []      -- ghost: every primitive effect the transaction performed, in program order
   swallowed : Nat := 0       -- ghost: nested invocations whose failure was not propagated
+  panicked : Bool := false   -- the handler panicked: in Go the panic leaves `ExecuteBlock` and the whole block is abandoned
 
 /-- What survives from one transaction to the next inside `executeBlock`: the overlay and the (reused) cache. -/
 structure BlockState where
@@ -318,7 +325,7 @@ structure BlockEnv where
 def newService (env : BlockEnv) (bs : BlockState) (tx : Tx) : Svc :=
   { base := env.base, overlay := bs.overlay, cache := bs.cache, serviceMap := [], notifications := [],
     crossHashes := [], input := tx.code, contexts := [], signers := tx.signers, height := env.height,
-    time := env.time, log := [], effLog := [], swallowed := 0 }
+    time := env.time, log := [], effLog := [], swallowed := 0, panicked := false }
 
 /-- One iteration of the loop in `executeBlock`: `cache.Reset()`, `handleTransaction`. -/
 def execTx (reg : Registry) (env : BlockEnv) (bs : BlockState) (tx : Tx) : BlockState × TxResult :=
@@ -328,7 +335,8 @@ def execTx (reg : Registry) (env : BlockEnv) (bs : BlockState) (tx : Tx) : Block
     let (r, s) := invokeF leafHash reg fuel (newService env bs0 tx)
     if r.failed then
       ({ overlay := s.overlay, cache := s.cache },
-       { ok := false, notify := [], cross := [], log := s.log, effs := s.effLog, swallowed := s.swallowed })
+       { ok := false, notify := [], cross := [], log := s.log, effs := s.effLog, swallowed := s.swallowed,
+         panicked := s.panicked })
     else
       ({ overlay := s.cache.commitInto s.overlay, cache := s.cache },   -- service.GetCacheDB().Commit()
        { ok := true, notify := s.notifications, cross := s.crossHashes, log := s.log, effs := s.effLog,
@@ -350,6 +358,13 @@ structure BlockResult where
 def execBlock (reg : Registry) (env : BlockEnv) (txs : List Tx) : BlockResult :=
   let (bs, rs) := execTxs leafHash reg env { overlay := [], cache := [] } txs
   { writeSet := bs.overlay, crossHashes := (rs.map (·.cross)).flatten, notify := rs }
+
+/-- What `ExecuteBlock` hands to its caller: nothing at all when a handler panicked (the panic propagates out of
+`executeBlock`; no result exists that could be submitted), otherwise the block result. In the model the transactions
+after a panicking one are still evaluated by `execTxs` (as if it had merely failed); their outcome is discarded here. -/
+def execBlockP (reg : Registry) (env : BlockEnv) (txs : List Tx) : Option BlockResult :=
+  let res := execBlock leafHash reg env txs
+  if res.notify.any (·.panicked) then none else some res
 
 end
 
